@@ -323,16 +323,19 @@ impl<'c> JoinReorderingRule<'c> {
         let mut accumulated_tables: HashSet<&str> = HashSet::new();
         let mut result = ordered_tables[0];
         self.add_table_names(result, &mut accumulated_tables);
+        let mut used: SmallVec<[bool; 8]> = SmallVec::from_elem(false, all_conditions.len());
 
         for right_table in ordered_tables.iter().skip(1).copied() {
             let mut right_tables: HashSet<&str> = HashSet::new();
             self.add_table_names(right_table, &mut right_tables);
 
-            let applicable_conditions: SmallVec<[&'a Expr<'a>; 8]> = all_conditions
-                .iter()
-                .filter(|cond| self.condition_applies(&accumulated_tables, &right_tables, cond))
-                .copied()
-                .collect();
+            let mut applicable_conditions: SmallVec<[&'a Expr<'a>; 8]> = SmallVec::new();
+            for (i, cond) in all_conditions.iter().enumerate() {
+                if !used[i] && self.condition_applies(&accumulated_tables, &right_tables, cond) {
+                    used[i] = true;
+                    applicable_conditions.push(cond);
+                }
+            }
 
             let join_condition = if applicable_conditions.is_empty() {
                 None
@@ -358,6 +361,22 @@ impl<'c> JoinReorderingRule<'c> {
             }
         }
 
+        // Conditions that did not connect two inputs (a predicate on one table, a constant,
+        // unqualified column references) must not be lost: all inputs are inner-joined, so
+        // they can be applied as a filter over the whole join.
+        let leftover: SmallVec<[&'a Expr<'a>; 8]> = all_conditions
+            .iter()
+            .enumerate()
+            .filter(|(i, _)| !used[*i])
+            .map(|(_, c)| *c)
+            .collect();
+        if !leftover.is_empty() {
+            result = arena.alloc(LogicalOperator::Filter(crate::sql::planner::LogicalFilter {
+                input: result,
+                predicate: self.combine_conditions(&leftover, arena),
+            }));
+        }
+
         result
     }
 
@@ -373,6 +392,10 @@ impl<'c> JoinReorderingRule<'c> {
             LogicalOperator::Subquery(subq) => {
                 tables.insert(subq.alias);
             }
+            // a join input that already had a filter pushed into it (or a projection on top)
+            // still provides its table's columns
+            LogicalOperator::Filter(filter) => self.add_table_names(filter.input, tables),
+            LogicalOperator::Project(project) => self.add_table_names(project.input, tables),
             _ => {}
         }
     }
